@@ -9,20 +9,18 @@ import (
 	"sort"
 	"strings"
 	"testing"
-
-	vmcommon "github.com/ElrondNetwork/elrond-vm-common"
 )
 
-var supplyFns = map[string]bool{vmcommon.BuiltInFunctionESDTLocalMint: true, vmcommon.BuiltInFunctionESDTLocalBurn: true, vmcommon.BuiltInFunctionESDTBurn: true,
-	vmcommon.BuiltInFunctionESDTNFTCreate: true, vmcommon.BuiltInFunctionESDTNFTAddQuantity: true, vmcommon.BuiltInFunctionESDTNFTBurn: true, vmcommon.BuiltInFunctionESDTWipe: true}
+var supplyFns = map[string]bool{refBuiltInFunctionESDTLocalMint: true, refBuiltInFunctionESDTLocalBurn: true, refBuiltInFunctionESDTBurn: true,
+	refBuiltInFunctionESDTNFTCreate: true, refBuiltInFunctionESDTNFTAddQuantity: true, refBuiltInFunctionESDTNFTBurn: true, refBuiltInFunctionESDTWipe: true}
 
-var roleGatedFns = map[string]bool{vmcommon.BuiltInFunctionESDTLocalMint: true, vmcommon.BuiltInFunctionESDTLocalBurn: true, vmcommon.BuiltInFunctionESDTNFTCreate: true,
-	vmcommon.BuiltInFunctionESDTNFTAddQuantity: true, vmcommon.BuiltInFunctionESDTNFTBurn: true, vmcommon.BuiltInFunctionESDTNFTAddURI: true, vmcommon.BuiltInFunctionESDTNFTUpdateAttributes: true}
+var roleGatedFns = map[string]bool{refBuiltInFunctionESDTLocalMint: true, refBuiltInFunctionESDTLocalBurn: true, refBuiltInFunctionESDTNFTCreate: true,
+	refBuiltInFunctionESDTNFTAddQuantity: true, refBuiltInFunctionESDTNFTBurn: true, refBuiltInFunctionESDTNFTAddURI: true, refBuiltInFunctionESDTNFTUpdateAttributes: true}
 
-var systemFns = map[string]bool{vmcommon.BuiltInFunctionESDTFreeze: true, vmcommon.BuiltInFunctionESDTUnFreeze: true, vmcommon.BuiltInFunctionESDTWipe: true, vmcommon.BuiltInFunctionESDTPause: true,
-	vmcommon.BuiltInFunctionESDTUnPause: true, vmcommon.BuiltInFunctionSetESDTRole: true, vmcommon.BuiltInFunctionUnSetESDTRole: true, vmcommon.BuiltInFunctionESDTNFTCreateRoleTransfer: true}
+var systemFns = map[string]bool{refBuiltInFunctionESDTFreeze: true, refBuiltInFunctionESDTUnFreeze: true, refBuiltInFunctionESDTWipe: true, refBuiltInFunctionESDTPause: true,
+	refBuiltInFunctionESDTUnPause: true, refBuiltInFunctionSetESDTRole: true, refBuiltInFunctionUnSetESDTRole: true, refBuiltInFunctionESDTNFTCreateRoleTransfer: true}
 
-var accountFns = map[string]bool{vmcommon.BuiltInFunctionChangeOwnerAddress: true, vmcommon.BuiltInFunctionClaimDeveloperRewards: true, vmcommon.BuiltInFunctionSetUserName: true}
+var accountFns = map[string]bool{refBuiltInFunctionChangeOwnerAddress: true, refBuiltInFunctionClaimDeveloperRewards: true, refBuiltInFunctionSetUserName: true}
 
 func mustFailFor(rec *CallRecord, prop string) (string, bool) {
 	for _, cl := range rec.V.MustFail {
@@ -139,20 +137,20 @@ var c03Templates = []func(g *Gen, run func(Op) bool){
 				fr = append(fr, []byte(r))
 			}
 		}
-		if !sys(vmcommon.BuiltInFunctionESDTTransfer, tokF, []byte{100}) {
+		if !sys(refBuiltInFunctionESDTTransfer, tokF, []byte{100}) {
 			return
 		}
-		if len(fr) > 0 && !sys(vmcommon.BuiltInFunctionSetESDTRole, append([][]byte{tokF}, fr...)...) {
+		if len(fr) > 0 && !sys(refBuiltInFunctionSetESDTRole, append([][]byte{tokF}, fr...)...) {
 			return
 		}
 		// the required role, but for the OTHER fungible token
-		if !sys(vmcommon.BuiltInFunctionSetESDTRole, tokF2, []byte(vmcommon.ESDTRoleLocalMint), []byte(vmcommon.ESDTRoleLocalBurn)) {
+		if !sys(refBuiltInFunctionSetESDTRole, tokF2, []byte(refESDTRoleLocalMint), []byte(refESDTRoleLocalBurn)) {
 			return
 		}
 		var nr [][]byte
 		for _, r := range allRoles[2:] {
 			if r != allRoles[missing] {
-				if r == vmcommon.ESDTRoleNFTCreate {
+				if r == refESDTRoleNFTCreate {
 					if _, busy := g.createRoleBusy(tokN); busy || m.Issued[string(tokN)] > 0 {
 						continue
 					}
@@ -160,16 +158,16 @@ var c03Templates = []func(g *Gen, run func(Op) bool){
 				nr = append(nr, []byte(r))
 			}
 		}
-		if len(nr) > 0 && !sys(vmcommon.BuiltInFunctionSetESDTRole, append([][]byte{tokN}, nr...)...) {
+		if len(nr) > 0 && !sys(refBuiltInFunctionSetESDTRole, append([][]byte{tokN}, nr...)...) {
 			return
 		}
 		// now every role-gated function once, by that account
 		uri := [][]byte{[]byte("u")}
 		calls := []*Call{
-			g.selfCall(vmcommon.BuiltInFunctionESDTLocalMint, who, tokF, []byte{5}),
-			g.selfCall(vmcommon.BuiltInFunctionESDTLocalBurn, who, tokF, []byte{5}),
-			g.selfCall(vmcommon.BuiltInFunctionESDTNFTCreate, who, tokN, []byte{2}, []byte("n"), []byte{1}, []byte("h"), []byte("a"), uri[0]),
-			g.selfCall(vmcommon.BuiltInFunctionESDTNFTCreate, who, tokN, []byte{1}, []byte("n"), []byte{1}, []byte("h"), []byte("a"), uri[0]),
+			g.selfCall(refBuiltInFunctionESDTLocalMint, who, tokF, []byte{5}),
+			g.selfCall(refBuiltInFunctionESDTLocalBurn, who, tokF, []byte{5}),
+			g.selfCall(refBuiltInFunctionESDTNFTCreate, who, tokN, []byte{2}, []byte("n"), []byte{1}, []byte("h"), []byte("a"), uri[0]),
+			g.selfCall(refBuiltInFunctionESDTNFTCreate, who, tokN, []byte{1}, []byte("n"), []byte{1}, []byte("h"), []byte("a"), uri[0]),
 		}
 		for _, c := range calls {
 			c.Gas = ampleGas
@@ -202,14 +200,14 @@ func c04RoundTrip(g *Gen) []Op {
 		if g.e.M.acc(g.shard(rcv), rcv).entry(string(token)).Frozen {
 			return nil // already frozen: unfreezing would change behaviour legitimately
 		}
-		return []Op{callOp(g.sysCall(g.shard(rcv), vmcommon.BuiltInFunctionESDTFreeze, rcv, token)), callOp(g.sysCall(g.shard(rcv), vmcommon.BuiltInFunctionESDTUnFreeze, rcv, token))}
+		return []Op{callOp(g.sysCall(g.shard(rcv), refBuiltInFunctionESDTFreeze, rcv, token)), callOp(g.sysCall(g.shard(rcv), refBuiltInFunctionESDTUnFreeze, rcv, token))}
 	}
 	sh := g.pick("rt-shard", g.e.M.NShards)
 	token := g.tokenOfKind("rt-ptoken", "F", "SFT", "NFT")
 	if g.e.M.paused(sh, token) {
 		return nil
 	}
-	return []Op{callOp(g.sysCall(sh, vmcommon.BuiltInFunctionESDTPause, refSystemAccount, token)), callOp(g.sysCall(sh, vmcommon.BuiltInFunctionESDTUnPause, refSystemAccount, token))}
+	return []Op{callOp(g.sysCall(sh, refBuiltInFunctionESDTPause, refSystemAccount, token)), callOp(g.sysCall(sh, refBuiltInFunctionESDTUnPause, refSystemAccount, token))}
 }
 
 func TestC04(t *testing.T) {
@@ -236,7 +234,7 @@ var c05Weights = baseWeights.with(Weights{"skv": 30, "mutate": 12, "unstructured
 
 func TestC05(t *testing.T) {
 	runHistories(t, historyCfg{prop: "C05", weights: c05Weights, minSteps: 10, maxSteps: 60, nontrivial: func(rec *CallRecord, g *Gen) (string, bool) {
-		if rec.Call.Fn == vmcommon.BuiltInFunctionSaveKeyValue {
+		if rec.Call.Fn == refBuiltInFunctionSaveKeyValue {
 			if _, ok := mustFailFor(rec, "C05"); ok {
 				return sprintf("skv-must-reject|%s|%s", outcomeOf(rec), shapeKey(g)), true
 			}
@@ -398,11 +396,11 @@ func TestC07(t *testing.T) {
 				}
 			}
 			switch rec.Call.Fn {
-			case vmcommon.BuiltInFunctionESDTNFTBurn:
+			case refBuiltInFunctionESDTNFTBurn:
 				note("burn")
-			case vmcommon.BuiltInFunctionESDTNFTTransfer:
+			case refBuiltInFunctionESDTNFTTransfer:
 				note("transfer-away")
-			case vmcommon.BuiltInFunctionESDTNFTCreateRoleTransfer:
+			case refBuiltInFunctionESDTNFTCreateRoleTransfer:
 				if rec.Call.MsgID != 0 {
 					if rec.Call.Redeliver {
 						note("handover-redelivered")
@@ -412,7 +410,7 @@ func TestC07(t *testing.T) {
 				} else if hasLabel(rec, "handover/at-current-holder") {
 					note("handover-started")
 				}
-			case vmcommon.BuiltInFunctionESDTNFTCreate:
+			case refBuiltInFunctionESDTNFTCreate:
 				evs := cur.events[tok]
 				if len(evs) == 0 {
 					note("create")
@@ -438,11 +436,11 @@ var c07Templates = []func(g *Gen, run func(Op) bool){
 		}
 		a := g.addr("t7-a")
 		b := g.dest("t7-b", a)
-		if !run(callOp(g.sysCall(g.shard(a), vmcommon.BuiltInFunctionSetESDTRole, a, tok, []byte(vmcommon.ESDTRoleNFTCreate), []byte(vmcommon.ESDTRoleNFTAddQuantity), []byte(vmcommon.ESDTRoleNFTBurn)))) {
+		if !run(callOp(g.sysCall(g.shard(a), refBuiltInFunctionSetESDTRole, a, tok, []byte(refESDTRoleNFTCreate), []byte(refESDTRoleNFTAddQuantity), []byte(refESDTRoleNFTBurn)))) {
 			return
 		}
 		mk := func(who []byte) *Call {
-			c := g.selfCall(vmcommon.BuiltInFunctionESDTNFTCreate, who, tok, []byte{1}, []byte("n"), []byte{}, []byte("h"), []byte{}, []byte("u"))
+			c := g.selfCall(refBuiltInFunctionESDTNFTCreate, who, tok, []byte{1}, []byte("n"), []byte{}, []byte("h"), []byte{}, []byte("u"))
 			c.Gas = ampleGas
 			return c
 		}
@@ -453,13 +451,13 @@ var c07Templates = []func(g *Gen, run func(Op) bool){
 			}
 		}
 		if g.pick("t7-burn-latest", 2) == 0 {
-			c := g.selfCall(vmcommon.BuiltInFunctionESDTNFTBurn, a, tok, beNonce(uint64(n)), []byte{1})
+			c := g.selfCall(refBuiltInFunctionESDTNFTBurn, a, tok, beNonce(uint64(n)), []byte{1})
 			c.Gas = ampleGas
 			if !run(callOp(c)) {
 				return
 			}
 		}
-		if !run(callOp(g.sysCall(g.shard(a), vmcommon.BuiltInFunctionESDTNFTCreateRoleTransfer, a, tok, b))) {
+		if !run(callOp(g.sysCall(g.shard(a), refBuiltInFunctionESDTNFTCreateRoleTransfer, a, tok, b))) {
 			return
 		}
 		// nobody may create while the hand-over is in flight
@@ -606,27 +604,27 @@ var c11Templates = []func(g *Gen, run func(Op) bool){
 		for _, r := range allRoles[2:] {
 			roles = append(roles, []byte(r))
 		}
-		if !run(callOp(g.sysCall(g.shard(a), vmcommon.BuiltInFunctionSetESDTRole, a, roles...))) {
+		if !run(callOp(g.sysCall(g.shard(a), refBuiltInFunctionSetESDTRole, a, roles...))) {
 			return
 		}
-		c := g.selfCall(vmcommon.BuiltInFunctionESDTNFTCreate, a, tok, []byte{5}, []byte("n"), []byte{}, []byte("h"), []byte("a"), []byte("u"))
+		c := g.selfCall(refBuiltInFunctionESDTNFTCreate, a, tok, []byte{5}, []byte("n"), []byte{}, []byte("h"), []byte("a"), []byte("u"))
 		c.Gas = ampleGas
 		if !run(callOp(c)) {
 			return
 		}
 		if g.pick("t11-freeze", 3) > 0 {
-			if !run(callOp(g.sysCall(g.shard(a), vmcommon.BuiltInFunctionESDTFreeze, a, tok))) {
+			if !run(callOp(g.sysCall(g.shard(a), refBuiltInFunctionESDTFreeze, a, tok))) {
 				return
 			}
 		}
 		nonces := [][]byte{{}, {0}, {0, 0, 0, 0, 0, 0, 0, 0, 0}, {1, 0, 0, 0, 0, 0, 0, 0, 0}, {1, 0, 0, 0, 0, 0, 0, 0, 1}, {0xff, 0xff, 0xff, 0xff, 0xff, 0xff, 0xff, 0xff}, {2, 0, 0, 0, 0, 0, 0, 0, 0, 0, 0, 0, 0, 0, 0, 0, 0}}
-		for _, fn := range []string{vmcommon.BuiltInFunctionESDTNFTUpdateAttributes, vmcommon.BuiltInFunctionESDTNFTAddURI, vmcommon.BuiltInFunctionESDTNFTAddQuantity, vmcommon.BuiltInFunctionESDTNFTBurn, vmcommon.BuiltInFunctionESDTNFTTransfer, vmcommon.BuiltInFunctionMultiESDTNFTTransfer} {
+		for _, fn := range []string{refBuiltInFunctionESDTNFTUpdateAttributes, refBuiltInFunctionESDTNFTAddURI, refBuiltInFunctionESDTNFTAddQuantity, refBuiltInFunctionESDTNFTBurn, refBuiltInFunctionESDTNFTTransfer, refBuiltInFunctionMultiESDTNFTTransfer} {
 			nb := nonces[g.pick("t11-nonce", len(nonces))]
 			var call *Call
 			switch fn {
-			case vmcommon.BuiltInFunctionESDTNFTTransfer:
+			case refBuiltInFunctionESDTNFTTransfer:
 				call = g.selfCall(fn, a, tok, nb, []byte{1}, b)
-			case vmcommon.BuiltInFunctionMultiESDTNFTTransfer:
+			case refBuiltInFunctionMultiESDTNFTTransfer:
 				call = g.selfCall(fn, a, b, []byte{1}, tok, nb, []byte{1})
 			default:
 				call = g.selfCall(fn, a, tok, nb, []byte{1})
